@@ -22,7 +22,7 @@ func init() { register(c07{}) }
 func (c07) ID() string            { return "C07" }
 func (c07) EvidenceLevel() string { return "exploration" }
 func (c07) Rule() string {
-	return "case = a well-formed gzip (1..3 members) or zlib container from either writer, payload 0..200 KiB, then many corruptions of it: every single-bit flip when the container is <= 400 bytes, random 1-3 bit flips / byte substitutions, targeted flips in trailer, flags and header CRC, and truncation at every byte (small) or sampled (large); destination sizes 1,7,512,64K. An independent container parser in the harness (liberal RFC 1950/1952 header reading + permissive reference inflater + own CRC-32/Adler-32/ISIZE check) decides what each corrupted input is. io.EOF from fastgo requires that parser to accept the input with identical bytes; a truncation strictly inside a member must end in io.ErrUnexpectedEOF after a prefix of the payload; every Read stays within 0..len(p); errors are of the allowed kinds and sticky. Non-trivial: the corrupted input differs from the original; distinct by its digest."
+	return "case = a well-formed gzip (1..3 members) or zlib container from either writer, payload 0..200 KiB, then many corruptions of it: every single-bit flip when the container is <= 400 bytes, random 1-3 bit flips / byte substitutions, targeted flips in trailer, flags and header CRC, and truncation at every byte (small) or sampled (large); destination sizes 1,7,512,64K. An independent container parser in the harness (liberal RFC 1950/1952 header reading + permissive reference inflater + own CRC-32/Adler-32/ISIZE check) decides what each corrupted input is. io.EOF from fastgo requires that parser to accept the input with identical bytes; a truncation strictly inside a member must end in io.ErrUnexpectedEOF after a prefix of the payload; every Read stays within 0..len(p); errors are of the allowed kinds and sticky. Non-trivial: the corrupted input differs from the original; distinct by its digest. A quarter of the reads issue a zero-length Read right after the last payload byte has been delivered, before reading on. Case 0 (levels 0, 3, 4): one member of 2^32+4097 zero bytes with a flipped bit in the high or low byte of its length field or in its CRC must not end in io.EOF."
 }
 func (c07) NumCases(tier string) int {
 	if tier == "thorough" {
@@ -123,7 +123,85 @@ func refZlib(in []byte) (out []byte, ok bool, reason string) {
 	return res.Out, true, ""
 }
 
-func (c07) Run(c *mon.Ctx, i int) {
+// zeroAfter passes Reads through, never lets one call cross the n-th byte,
+// and issues one zero-length Read right after the n-th byte was delivered.
+type zeroAfter struct {
+	r    io.Reader
+	left int
+	done bool
+}
+
+func (z *zeroAfter) Read(p []byte) (int, error) {
+	if !z.done && z.left == 0 {
+		z.done = true
+		if n, e := z.r.Read(p[:0]); n != 0 || e != nil {
+			return n, e
+		}
+	}
+	if z.left > 0 && len(p) > z.left {
+		p = p[:z.left]
+	}
+	n, e := z.r.Read(p)
+	if z.left > 0 {
+		z.left -= n
+	}
+	return n, e
+}
+
+// huge: one member of 4 GiB + 4097 zero bytes whose trailer is damaged in the
+// length field (compared mod 2^32) or in the CRC: the Reader must not end in
+// io.EOF.
+func (c07) huge(c *mon.Ctx) {
+	const total = int64(4)<<30 + 4097
+	var cont bytes.Buffer
+	w, err := c.API.NewGzipWriterLevel(&cont, 1)
+	if err != nil {
+		return
+	}
+	if _, err := io.Copy(w, &zeroReader{left: total}); err != nil {
+		return
+	}
+	if w.Close() != nil {
+		return
+	}
+	b := cont.Bytes()
+	for _, pos := range []int{1, 4, 8} { // from the end: length high byte, length low byte, CRC low byte... counted back
+		m := append([]byte(nil), b...)
+		m[len(m)-pos] ^= 0x10
+		var n int64
+		var e error
+		pv, st := mon.Safe(func() {
+			z, err := c.API.NewGzipReader(bytes.NewReader(m))
+			if err != nil {
+				e = err
+				return
+			}
+			n, e = io.Copy(io.Discard, z)
+			if e == nil {
+				e = io.EOF // io.Copy swallows the clean end
+			}
+		})
+		c.Eval(1)
+		desc := map[string]interface{}{"kind": "gzip", "payload": "2^32+4097 zero bytes", "flipped_byte_from_end": pos, "bytes_read": n}
+		if pv != nil {
+			desc["stack"] = st
+			c.Violate("panic|gzip|over-4GiB", fmt.Sprint(pv), desc)
+			return
+		}
+		if e == io.EOF {
+			c.Violate("accepted|gzip|over-4GiB|trailer-flip", fmt.Sprintf("member of 2^32+4097 bytes with byte %d from the end of its trailer changed: read %d bytes and ended in io.EOF", pos, n), desc)
+			return
+		}
+		c.Count("over-4GiB trailer corruptions rejected", 1)
+		c.Nontrivial("huge", pos)
+	}
+}
+
+func (p c07) Run(c *mon.Ctx, i int) {
+	if i == 0 && (c.Level == 0 || c.Level >= 3) {
+		p.huge(c)
+		return
+	}
 	r := c.R
 	kind := []string{"gzip", "zlib"}[i%2]
 	small := i%4 < 2
@@ -289,6 +367,7 @@ func (c07) Run(c *mon.Ctx, i int) {
 		}
 	}
 	// the untouched container must read back (otherwise the case says nothing)
+	zeroRead := false
 	readWith := func(in []byte, style string) (rr readRun, ctorErr error) {
 		var rd io.Reader
 		pv, st := mon.Safe(func() {
@@ -314,6 +393,10 @@ func (c07) Run(c *mon.Ctx, i int) {
 		if ctorErr != nil {
 			return readRun{}, ctorErr
 		}
+		if zeroRead {
+			// all payload bytes, then a zero-length Read, then on
+			rd = &zeroAfter{r: rd, left: len(payload)}
+		}
 		return drain(rd, gen.ReadSizes(r, style), len(payload)+4<<20), nil
 	}
 	for _, co := range cs {
@@ -321,9 +404,14 @@ func (c07) Run(c *mon.Ctx, i int) {
 		if len(payload) > 20000 && style == "1" {
 			style = "7"
 		}
+		zeroRead = r.Chance(1, 4)
+		if zeroRead {
+			c.Count("reads-with-a-zero-length-Read-after-the-last-payload-byte", 1)
+		}
 		rr, ctorErr := readWith(co.b, style)
+		zeroRead = false
 		c.Eval(1)
-		d2 := map[string]interface{}{"corruption": co.what, "read_style": style}
+		d2 := map[string]interface{}{"corruption": co.what, "read_style": style, "zero_length_read_after_payload": zeroRead}
 		for k, v := range desc {
 			d2[k] = v
 		}
